@@ -7,6 +7,7 @@ mod crash;
 mod cyref;
 mod multi;
 mod qchk;
+mod qclock;
 mod qcrash;
 mod qexpr;
 mod qry;
@@ -86,6 +87,7 @@ fn main() {
         "C15" => qchk::c15(tier),
         "C16" => qcrash::c16(tier),
         "C30" => bulk::c30(tier),
+        "C32" => qclock::c32(tier),
         "C19" => qchk::c19(tier),
         "C20" => qexpr::c20(tier),
         "C21" => qexpr::c21(tier),
